@@ -648,6 +648,14 @@ pub fn check_raw(r: &Raw, ctx: &mut Ctx) -> CheckResult {
             }
         }
         same(&b, &e, "canonicalize")?;
+        // is_triu is a statement about structure only, so it is defined for unsorted / duplicated storage too
+        if r.m == r.n {
+            let lower = (0..r.n).any(|c| (r.colptr[c]..r.colptr[c + 1]).any(|k| r.rowval[k] > c));
+            ensure!(a.is_triu() == !lower, "is_triu = {} on {:?} but entries below the diagonal exist: {}", a.is_triu(), r, lower);
+            if !canon && lower {
+                ctx.label("is_triu-unsorted-lower");
+            }
+        }
         ensure!(b.check_format().is_ok(), "check_format rejects canonicalize output");
         if !canon {
             ctx.label("canonicalize-repaired");
